@@ -20,7 +20,7 @@ def need(cond, what, detail=''):
         raise Fail(what, detail() if callable(detail) else detail)
 
 
-def tagged_mesh(name, rng, oriented=False, **kw):
+def tagged_mesh(name, rng, oriented=True, **kw):
     m = rand_mesh1(name, rng, integer=True, **kw)
     sub, bnd = rand_tags(m, rng, oriented=oriented, empty=True)
     return m.with_subdomains(sub).with_boundaries(bnd)
@@ -155,6 +155,12 @@ def check_tiling(rng, parent, children, what, k):
 
 
 def op_to_meshtri(m, rng):
+    if m.boundaries and rng.random() < 0.4:                  # a tag that lists facets twice
+        from dataclasses import replace
+        nm = sorted(m.boundaries)[0]
+        b = np.asarray(m.boundaries[nm])
+        if len(b):
+            m = replace(m, _boundaries={**m.boundaries, 'twice': np.concatenate([b, b[:2]]).astype(np.int32)})
     style = 'x' if rng.random() < 0.5 else None
     nt = m.t.shape[1]
     x = rng.integers(0, 100, size=nt).astype(float)
@@ -179,8 +185,21 @@ def op_to_meshtri(m, rng):
         need(sorted(np.asarray(M.subdomains[nm]).tolist()) == want, what + ':subdomain', nm)
     need(sorted(M.boundaries or {}) == sorted(m.boundaries or {}), what + ':boundary-names', '')
     for nm, b in (m.boundaries or {}).items():
-        need(facet_points(M, M.boundaries[nm]) == facet_points(m, b) and
-             len(M.boundaries[nm]) == len(set(np.asarray(b).tolist())), what + ':boundary', nm)
+        g = M.boundaries[nm]
+        need(np.asarray(g).dtype.kind in 'iu', what + ':boundary-dtype', nm)
+        # entry by entry (stable increasing order of the old facet numbers; repeated entries stay repeated)
+        order = np.argsort(np.asarray(b), kind='stable')
+        need(len(g) == len(b), what + ':boundary', lambda: f'{nm}: {len(b)} entries -> {len(g)}')
+        for j, k0 in enumerate(order):
+            need(frozenset(cols(M.p, M.facets[:, int(g[j])])) == frozenset(cols(m.p, m.facets[:, int(b[k0])])),
+                 what + ':boundary', lambda: f'{nm}: entry {j} designates another facet')
+        if getattr(b, 'ori', None) is not None:
+            go = getattr(g, 'ori', None)
+            need(go is not None, what + ':orientation-dropped', nm)
+            for j, k0 in enumerate(order):
+                c = int(m.f2t[int(b.ori[k0]), int(b[k0])])
+                need(int(M.f2t[int(go[j]), int(g[j])]) % nt == c, what + ':orientation-side',
+                     lambda: f'{nm}: the tagged side of entry {j} is not a child of quadrilateral {c}')
     return M, {'style': style}
 
 
